@@ -257,6 +257,16 @@ fn lst_plans(thorough: bool) -> Vec<Plan> {
                 250,
             )
         };
+        let q2 = |k: &K| -> Option<Sim> {
+            small_funds(
+                || {
+                    let mut sc = Script { s: seed_two_stakes(k), strict: true, dead: false };
+                    sc = sc.with(|s| unstake(s, &u(2), 40));
+                    seed_two_lst_refundable(k, sc.done(), &n20(k, "n1"))
+                },
+                250,
+            )
+        };
         let seeds = named(
             &k,
             vec![
@@ -267,9 +277,12 @@ fn lst_plans(thorough: bool) -> Vec<Plan> {
                 ("mid_amounts", small_funds(|| seed_mid_amounts(&k), 250)),
                 ("mixed_refundable", small_funds(|| seed_mixed_refundable(&k, seed_received(&k), false), 250)),
                 ("mixed_refundable_lst_lowest", small_funds(|| seed_mixed_refundable(&k, seed_received(&k), true), 250)),
+                ("two_lst_refundable_queued", q2(&k)),
             ],
         );
         let mut o = MenuOpt::base();
+        o.recover_forced = true;
+        o.recover_forced_groups = true;
         o.rewards = vec![50];
         o.stake_amts = vec![100, 37];
         o.max_dev = if thorough { 2 } else { 1 };
@@ -366,6 +379,8 @@ fn wd_plans(thorough: bool) -> Vec<Plan> {
     seeds.push(("four_requesters", small_funds(|| seed_four_requesters(&k), 0)));
     seeds.push(("ten_batches", small_funds(|| seed_ten_batches(&k), 0)));
     seeds.push(("thirty_three_batches", small_funds(|| seed_n_batches(&k, 33, true, false), 0)));
+    seeds.push(("many_requesters", small_funds(|| seed_many_requesters(&k, 45), 0)));
+    seeds.push(("huge_store", small_funds(|| seed_n_batches(&k, 150, true, true), 0)));
     seeds.push(("mid_received", small_funds(|| seed_mid_received(&k), 0)));
     if thorough {
         seeds.push(("two_batches", small_funds(|| two_batches(&k), 0)));
@@ -381,7 +396,7 @@ fn wd_plans(thorough: bool) -> Vec<Plan> {
     o.deliver = vec![Rel::Exact, Rel::Minus1, Rel::Half, Rel::Plus5, Rel::One];
     o.deliver_dev = false;
     o.withdraw_all_pairs = true;
-    o.withdrawers = vec![u(1), u(2), u(3), p20("u4"), p20("x")];
+    o.withdrawers = vec![u(1), u(2), u(3), p20("u4"), p20("x"), rq(1), rq(2)];
     o.holds = false;
     o.max_dev = 0;
     o.fee_withdraw = vec![];
@@ -578,6 +593,7 @@ fn ibc_plans(thorough: bool) -> Vec<Plan> {
             ("rate_up", small_funds(|| seed_rate_up(&k), 120)),
             ("refundable11", small_funds(|| refundable_seed(&k, 11), 40)),
             ("refundable12_from_seq8", small_funds(|| refundable_seed_from(&k, 12, 8), 40)),
+            ("refundable140", small_funds(|| refundable_seed(&k, 140), 40)),
             ("mixed_refundable", small_funds(|| seed_mixed_refundable(&k, seed_two_stakes(&k), false), 60)),
             ("mixed_refundable_lst_lowest", small_funds(|| seed_mixed_refundable(&k, seed_two_stakes(&k), true), 60)),
             ("refundable2_two_denoms", small_funds(
@@ -621,6 +637,8 @@ fn ibc_plans(thorough: bool) -> Vec<Plan> {
                     a.push(hold(stake(&u(1), 20)));
                     a.push(hold(stake_to(&u(1), 20, Some(n1.clone()), Some(true), None)));
                     a.push(hold(stake_to(&u(1), 20, Some(staker.clone()), Some(true), None)));
+                    // a 32-byte native account (interchain account, module, contract) as LST recipient
+                    a.push(hold(stake_to(&u(1), 20, Some(n32(&kk, "m1")), Some(true), None)));
                     a.push(stake(&u(1), 20));
                 }
                 if !s.w.state().total_liquid_stake_token.is_zero() {
@@ -663,6 +681,7 @@ fn ibc_plans(thorough: bool) -> Vec<Plan> {
                 (Some(true), Some(n1.clone())),
                 (None, Some("garbage".to_string())),
                 (None, Some(u(3))),
+                (None, Some(n32(&kk, "m1"))),
             ] {
                 a.push(recover(&p20("x"), pg, None, rc));
             }
@@ -848,7 +867,7 @@ pub fn panic_plans(thorough: bool) -> Vec<Plan> {
 /// seeds with long scripted prefixes (many batches) are explored in a plan of their own, at a
 /// smaller depth: their states are large and their menus wide
 fn is_deep(seed: &str) -> bool {
-    ["ten_batches", "thirty_three_batches", "eight_submitted"].iter().any(|d| seed.ends_with(d))
+    ["ten_batches", "thirty_three_batches", "eight_submitted", "many_requesters", "huge_store", "refundable140"].iter().any(|d| seed.ends_with(d))
 }
 
 pub fn plans(prop: &str, thorough: bool) -> Vec<Plan> {
